@@ -4,6 +4,7 @@ import (
 	"fmt"
 	"reflect"
 	"strings"
+	"sync"
 
 	"ariga.io/atlas/schemahcl"
 	"ariga.io/atlas/sql/mysql"
@@ -135,6 +136,8 @@ type Tab struct {
 	Cols         []Col    `json:"cols"`
 	PK           []Part   `json:"pk,omitempty"`
 	PKInclude    []string `json:"pk_include,omitempty"`
+	PKType       string   `json:"pk_type,omitempty"`
+	PKComment    string   `json:"pk_comment,omitempty"`
 	Idx          []Idx    `json:"idx,omitempty"`
 	FKs          []FK     `json:"fks,omitempty"`
 	Checks       []Chk    `json:"checks,omitempty"`
@@ -185,13 +188,97 @@ var dialects = map[string]*dialect{
 
 var dialectOrder = []string{"mysql", "postgres", "sqlite"}
 
-func specByName(d *dialect, name string) *schemahcl.TypeSpec {
-	for _, s := range d.reg.Specs() {
-		if s.Name == name {
-			return s
+type pinnedAttr struct {
+	Name     string
+	Kind     string // reflect.Kind name
+	Required bool
+}
+
+type pinnedSpec struct {
+	Name  string
+	T     string
+	Conv  bool // the spec has its own FromSpec/ToSpec converter (PostgreSQL interval fields)
+	Attrs []pinnedAttr
+}
+
+// allSpecs returns the specs the workload ranges over: the pinned manifest of the dialect (manifest.go)
+// with the attributes of the live registry merged in, plus live specs the manifest does not know. The
+// workload therefore never shrinks when a registry entry loses an attribute or is dropped.
+func allSpecs(d *dialect) []pinnedSpec {
+	var out []pinnedSpec
+	seen := map[string]int{}
+	for _, p := range pinnedSpecs[d.name] {
+		seen[p.Name] = len(out)
+		out = append(out, pinnedSpec{Name: p.Name, T: p.T, Conv: p.Conv, Attrs: append([]pinnedAttr(nil), p.Attrs...)})
+	}
+	for _, l := range d.reg.Specs() {
+		i, ok := seen[l.Name]
+		if !ok {
+			seen[l.Name] = len(out)
+			out = append(out, pinnedSpec{Name: l.Name, T: l.T, Conv: l.FromSpec != nil})
+			i = len(out) - 1
+		}
+		for _, a := range l.Attributes {
+			has := false
+			for _, b := range out[i].Attrs {
+				has = has || b.Name == a.Name
+			}
+			if !has {
+				out[i].Attrs = append(out[i].Attrs, pinnedAttr{a.Name, a.Kind.String(), a.Required})
+			}
 		}
 	}
+	return out
+}
+
+var (
+	specOnce  sync.Once
+	specIndex = map[string]map[string]pinnedSpec{}
+)
+
+func specByName(d *dialect, name string) *pinnedSpec {
+	specOnce.Do(func() {
+		for _, dn := range dialectOrder {
+			specIndex[dn] = map[string]pinnedSpec{}
+			for _, s := range allSpecs(dialects[dn]) {
+				specIndex[dn][s.Name] = s
+			}
+		}
+	})
+	if s, ok := specIndex[d.name][name]; ok {
+		return &s
+	}
 	return nil
+}
+
+// rawSpelling prints the database spelling of a spec with integer arguments, written by the monitor
+// (not by PrintType): `varchar(10)`, `decimal(10,2) unsigned`, `interval hour to second(3)`.
+func rawSpelling(d *dialect, sp *pinnedSpec, args []Arg) (string, bool) {
+	var nums []string
+	unsigned := false
+	for _, a := range args {
+		switch {
+		case a.K == "unsigned":
+			unsigned = a.B != nil && *a.B
+		case a.I != nil:
+			nums = append(nums, fmt.Sprint(*a.I))
+		default:
+			return "", false
+		}
+	}
+	t := sp.T
+	if sp.Conv {
+		if f := strings.ReplaceAll(sp.T, "_", " "); f != "interval" {
+			t = "interval " + f
+		}
+	}
+	if len(nums) > 0 {
+		t += "(" + strings.Join(nums, ",") + ")"
+	}
+	if unsigned {
+		t += " unsigned"
+	}
+	return t, true
 }
 
 // hclAttrs converts the JSON args into schemahcl attributes: positional ones go on the type, `unsigned`
@@ -309,7 +396,7 @@ func litType(d *dialect, tc TypeCase) (schema.Type, error) {
 			return nil, errLitParam
 		}
 	}
-	for _, a := range sp.Attributes {
+	for _, a := range sp.Attrs {
 		if f := field(a.Name); f.IsValid() && f.CanSet() {
 			f.Set(reflect.Zero(f.Type()))
 		}
@@ -481,6 +568,19 @@ func Build(sp *Sch, k kinds) (*schema.Schema, error) {
 			if len(mt.PKInclude) > 0 {
 				pk.AddAttrs(include(mt.PKInclude))
 				k.add("pk.include")
+			}
+			if mt.PKType != "" {
+				k.add("pk.type." + strings.ToLower(mt.PKType))
+				switch sp.Dialect {
+				case "mysql":
+					pk.AddAttrs(&mysql.IndexType{T: mt.PKType})
+				case "postgres":
+					pk.AddAttrs(&postgres.IndexType{T: mt.PKType})
+				}
+			}
+			if mt.PKComment != "" {
+				pk.SetComment(mt.PKComment)
+				k.add("pk.comment")
 			}
 			t.SetPrimaryKey(pk)
 			k.add("pk")
